@@ -269,7 +269,8 @@ class RunModel(Analysis):
                 sig = self.sigs.get(callee.qualname)
                 helper_obj = callee.cls is not None and callee.cls.name.startswith('_') and recv is not None \
                     and recv[0] == 'new'
-                own_state = callee.cls is self.roles.window_cls and bool(sig and sig.stores)
+                own_state = bool(sig and sig.stores) and callee.cls is not None and (
+                    callee.cls is self.roles.window_cls or callee.cls.name.startswith('_'))
                 if sig is not None and not helper_obj and not own_state and not (
                         sig.suspends or sig.spawns or sig.cancels or sig.raises
                         or (sig.stores & self.roles.data_attrs)):
@@ -430,6 +431,7 @@ class RunModel(Analysis):
         if (t[0] == 'mcall' and t[2] == 'co_run') or (t[0] == 'coro' and self._is_member_corun(t)):
             job = t[1] if t[0] == 'mcall' else None
             self.ev(ip, 'BODY', node, st, fr, job=job, slot=st.a('slot', 'Free'))
+            st = st.set(body_started=True)
             out = self.cancel_edge(ip, node, st, fr, "CancelledError delivered inside the job body")
             if self.gen_bodyexc:
                 out.append((st.note(ip.where(node, fr), "the job body raises"), None, ('BodyExc',)))
@@ -488,9 +490,10 @@ class RunModel(Analysis):
             # a FIRST_COMPLETED wait reached after the run decided to leave its loop:
             # not the main wait; the decision (cause) stays
             self.ev(ip, 'LATEWAIT', node, st, fr, arg=arg, cause=c)
-            y = y.set(live=frozenset([wp]), cause=c, susp=True)
+            y = y.set(live=frozenset([wp]) | frozenset(uncovered), cause=c, susp=True)
         else:
-            y = y.set(live=frozenset([wp]), susp=False, nwait=1,
+            # (a task the wait was not given - a monitor started on the side - is still there afterwards)
+            y = y.set(live=frozenset([wp]) | frozenset(uncovered), susp=False, nwait=1,
                       cancelled=frozenset(), cur_wait=site, incs=0, count_ok=None, cause=None)
         y = y.note(ip.where(node, fr), "asyncio.wait(FIRST_COMPLETED) returns (done, pending)")
         out = self.cancel_edge(ip, node, st, fr, "CancelledError delivered at the main wait")
@@ -627,6 +630,11 @@ class RunModel(Analysis):
         g = self.roles.guard_attr
         if g and term == T.mk(('attr', T.SELF, g)) and not val:
             st = st.set(gtested=True)
+        if g and term[0] == 'cmp' and term[2] == T.mk(('attr', T.SELF, g)) and (
+                (term[1] in ('is', '==') and term[3] == T.TRUE and not val) or
+                (term[1] in ('is not', '!=') and term[3] == T.FALSE and not val)):
+            # `if self.flag is True: return` not taken (the flag only ever holds True or False)
+            st = st.set(gtested=True)
         if val and term[0] == 'call' and term[1] == 'all' and len(term[2]) == 1 and term[2][0][0] == 'comp':
             # `all(t.done() for t in X)` holds: X holds no unfinished task. If X was cancelled before, that is
             # the outcome of a tidy (a wait loop that ends on this test rather than on the wait itself)
@@ -715,15 +723,22 @@ class RunModel(Analysis):
                     nstart=st.a('nstart', 0), depth=fr.depth)
         upd = {}
         root = getattr(ip, 'root', None)
-        if obj == T.SELF and root is not None and root.func.cls is r.window_cls and fr.func.name != '__init__':
-            # the window's own state, written by the wrapper (a flag that closes it, a count of what is left)
+        wpath = attr if obj == T.SELF else (obj[2] + '.' + attr if T.is_attr(obj) and obj[1] == T.SELF else None)
+        if wpath is not None and root is not None and root.func.cls is r.window_cls and fr.func.name != '__init__':
+            # the window's own state - or that of a state object it keeps in one of its attributes - written by the
+            # wrapper (a flag that closes it, a count of what is left)
+            attr_ = attr
+            attr = wpath
             self.ev(ip, 'WSTORE', node, st, fr, attr=attr, val=val, aug=aug, slot=st.a('slot', 'Free'),
-                    body_done=bool(st.a('body_done')), wdec=st.a('wdec', frozenset()))
-            if val == T.TRUE and aug is None:
-                upd['wset'] = st.a('wset', frozenset()) | {attr}
-            if aug == 'Sub' or (aug is None and val[0] == 'binop' and val[1] == 'Sub'
-                                and val[2] == T.mk(('attr', T.SELF, attr))):
+                    body_done=bool(st.a('body_done')), wdec=st.a('wdec', frozenset()),
+                    body_started=bool(st.a('body_started')), cancelled=bool(st.a('cdelivered')))
+            if val in (T.TRUE, T.FALSE) and aug is None:
+                # (a flag of the window set to a constant: (name, value) - `closed = True` or `_open = False`)
+                upd['wset'] = frozenset(x for x in st.a('wset', frozenset()) if x[0] != attr) | {(attr, val[1])}
+            if aug in ('Sub', 'Add') or (aug is None and val[0] == 'binop' and val[1] in ('Sub', 'Add')
+                                         and val[2] == T.mk(('attr', obj, attr_))):
                 upd['wdec'] = st.a('wdec', frozenset()) | {attr}
+            attr = attr_
         if obj == T.SELF and attr == r.timeout_flag:
             upd['tf'] = 'unset' if val == T.FALSE else 'set'
         if obj == T.SELF and attr == r.critical_flag:
